@@ -241,6 +241,9 @@ func c19Scenario(c *Ctx, i int, r *Rng) {
 	var arg string
 	if filename {
 		arg = genTrackName(r, false)
+		if r.Chance(4) {
+			arg = ".\\" + genTrackName(r, true) // on this platform a backslash is an ordinary character of a file name
+		}
 	} else {
 		arg = Pick(r, []string{"*.dat", "*.x y", "img/*.png", "a b*.dat", "data/**/*.bin", "/rooted.dat", "file#1.dat", "doc ?.txt", "*.[ch]"})
 	}
@@ -280,6 +283,31 @@ func c19Scenario(c *Ctx, i int, r *Rng) {
 		pre = Pick(r, []string{"", "*.txt text\n"}) + arg + Pick(r, []string{" lockable\n", " -filter\n", " text\n", " filter=other\n"})
 		c.R.Count("track.mentioned-not-tracked")
 	}
+	family := ""
+	if nestedMacro == "" && r.Chance(10) {
+		filename = false
+		family = Pick(r, []string{"above-has-dir-pattern", "macro-tracked", "long-line"})
+		switch family {
+		case "above-has-dir-pattern":
+			// the top-level file already tracks `sub/<pattern>` — direct children of sub only — and the
+			// command is run in sub/ with <pattern>, which there denotes every depth below sub
+			arg = Pick(r, []string{"*.dat", "*.[ch]", "file#1.dat"})
+			sub = "sub"
+			os.MkdirAll(filepath.Join(dir, sub), 0o755)
+			os.WriteFile(filepath.Join(dir, ".gitattributes"), []byte("sub/"+strings.ReplaceAll(arg, "#", "\\#")+" filter=lfs diff=lfs merge=lfs -text\n"), 0o644)
+			pre = Pick(r, []string{"", "*.txt text\n"})
+		case "macro-tracked":
+			// tracked through a macro of the top-level file: `git lfs untrack` is to end that
+			arg = Pick(r, []string{"*.dat", "img/*.png"})
+			sub = ""
+			pre = "[attr]lfsbin filter=lfs diff=lfs merge=lfs -text\n" + arg + " lfsbin\n"
+		case "long-line":
+			// a line longer than any reader's default buffer, followed by other patterns' lines
+			arg = Pick(r, []string{"*.dat", "img/*.png"})
+			pre = "# " + strings.Repeat("x", 70000) + "\n*.old filter=lfs diff=lfs merge=lfs -text\nother.bin -text\n*.txt text\n"
+		}
+		c.R.Count("track.family." + family)
+	}
 	wd := filepath.Join(dir, sub)
 	if pre != "" {
 		os.WriteFile(filepath.Join(wd, ".gitattributes"), []byte(pre), 0o644)
@@ -287,6 +315,9 @@ func c19Scenario(c *Ctx, i int, r *Rng) {
 	enc := fmt.Sprintf("C19 scen filename=%v sub=%s arg=%s pre=%s", filename, orDash(sub), hx([]byte(arg)), hx([]byte(pre)))
 	if nestedMacro != "" {
 		enc += " nested-macro=" + nestedMacro
+	}
+	if family != "" {
+		enc += " family=" + family
 	}
 	c.R.Eval(enc, strings.ContainsAny(arg, " #*?[]\\!\"\t"))
 	rel := func(p string) string {
@@ -302,7 +333,7 @@ func c19Scenario(c *Ctx, i int, r *Rng) {
 			probes = append(probes, rel(q))
 		}
 	} else {
-		for _, q := range []string{"x.dat", "a b.dat", "a bc.dat", "a\tb.dat", "ab.dat", "img/p.png", "p.png", "data/q.bin", "data/u/v/q.bin", "rooted.dat", "deep/rooted.dat", "file#1.dat", "file1.dat", "doc 1.txt", "doc\t1.txt", "doc12.txt", "m.c", "m.h", "m.x y", "m.xy"} {
+		for _, q := range []string{"x.dat", "a b.dat", "a bc.dat", "a\tb.dat", "ab.dat", "img/p.png", "p.png", "data/q.bin", "data/u/v/q.bin", "rooted.dat", "deep/rooted.dat", "file#1.dat", "file1.dat", "doc 1.txt", "doc\t1.txt", "doc12.txt", "m.c", "m.h", "m.x y", "m.xy", "deep/x.dat", "deep/m.c", "deep/file#1.dat"} {
 			probes = append(probes, rel(q))
 		}
 	}
@@ -424,11 +455,17 @@ func c19Scenario(c *Ctx, i int, r *Rng) {
 				if strings.ContainsAny(arg, "\t") || strings.HasPrefix(arg, "!") || strings.HasPrefix(arg, "\"") || strings.HasPrefix(arg, "../") {
 					sig = "D9b" // tab / leading ! or " are not expressible in the unquoted pattern the command writes
 				}
+				if strings.HasPrefix(arg, ".\\") {
+					sig = "D57" // `.\` is taken for the current directory on every platform (tools.TrimCurrentPrefix)
+				}
 				fail("after `git lfs track --filename <name>` Git does not assign the LFS filter to that literal path", fmt.Sprintf("name=%q written=%q", arg, string(attrs1)), sig)
 			case !isTarget && got && before[q] != "lfs":
 				sig := ""
 				if hasBlank && sameModuloSpace(rel(arg), q) {
 					sig = "D9a" // [[:space:]] also matches other whitespace where the name has a blank
+				}
+				if strings.HasPrefix(arg, ".\\") {
+					sig = "D57"
 				}
 				fail("after `git lfs track --filename <name>` Git assigns the LFS filter to a path other than that literal name", fmt.Sprintf("name=%q other=%q", arg, q), sig)
 			}
@@ -445,12 +482,23 @@ func c19Scenario(c *Ctx, i int, r *Rng) {
 		if filename && (strings.Contains(arg, "\t") || strings.HasPrefix(arg, "!") || strings.HasPrefix(arg, "\"")) {
 			sig = "D9b" // the line written for such a name is not tokenised back to the same pattern
 		}
+		if filename && strings.HasPrefix(arg, ".\\") && sig == "" {
+			sig = "D57"
+		}
 		fail("re-running `git lfs track` with the same argument changed .gitattributes", fmt.Sprintf("first=%q second=%q (%s | %s)", string(attrs1), string(attrs2), strings.TrimSpace(out1), strings.TrimSpace(out2)), sig)
 	}
 	// untrack
 	runIn(wd, env, c.Lfs, "untrack", arg)
 	c.R.Count("untrack")
 	afterUn := checkAttr(dir, probes)
+	if family == "macro-tracked" {
+		for _, q := range probes {
+			if before[q] == "lfs" && afterUn[q] == "lfs" {
+				fail("after `git lfs untrack` the path is still assigned the LFS filter", fmt.Sprintf("arg=%q path=%q (tracked through a macro of the top-level file)", arg, q), "D55")
+				break
+			}
+		}
+	}
 	for _, q := range probes {
 		if after[q] == "lfs" && before[q] != "lfs" && afterUn[q] == "lfs" {
 			sig := ""
